@@ -257,31 +257,26 @@ Definition call (k : kind) (s : spec) (o : op) (st : N) : outcome :=
            end
        end.
 
-(* ---- the import namespace of the endpoints module.  The module imports, BY NAME, the exception classes it raises
-   (`from <core> import NotFoundError`, `from <core>.exceptions import ClientError, HTTPError, ServerError`) and the model
-   classes of its operations' 2xx bodies (`from ..models.not_found_error import NotFoundError`); the model imports are
-   rendered last, so a model class with the same name SHADOWS the exception class: `raise NotFoundError(response=response)`
-   then calls the dataclass constructor and fails with TypeError.  [ms] = the model class names imported by the module.
-   The bundled transport raises inside core/http_transport.py, where nothing is shadowed. *)
-Definition call_ns (k : kind) (s : spec) (ms : list str) (o : op) (st : N) : outcome :=
+(* ---- the import namespace of the endpoints module.  The module imports, by name, the exception classes it raises and
+   the model classes of its operations' 2xx bodies (the models last): a model class with the same name would SHADOW the
+   exception class.  _exception_ref therefore references a class whose name is also a model class name of the spec
+   through its module (`exception_aliases.NotFoundError`, `exceptions.ClientError`); every other class by name.
+   [all] = model class names of the whole spec (superset of [ms] = those imported by this module). *)
+Inductive ref := ByName (n : str) | Qualified (n : str).
+Definition exception_ref (all : list str) (c : cls) : ref :=
+  if mem_str (cls_name c) all then Qualified (cls_name c) else ByName (cls_name c).
+(* does the reference denote the exception class in a module that imports the model classes [ms] by name? *)
+Definition resolves (ms : list str) (r : ref) : bool :=
+  match r with Qualified _ => true | ByName n => negb (mem_str n ms) end.
+
+Definition call_ns (k : kind) (s : spec) (all ms : list str) (o : op) (st : N) : outcome :=
   match transport k st with
-  | Some _ => call k s o st
+  | Some _ => call k s o st          (* raised inside core/http_transport.py: nothing is shadowed there *)
   | None => match call k s o st with
-            | Raised c st' r => if mem_str (cls_name c) ms then Crashed else Raised c st' r
+            | Raised c st' r => if resolves ms (exception_ref all c) then Raised c st' r else Crashed
             | x => x
             end
   end.
-(* F06e: the name raised by the handler for this status denotes the exception class (no model shadows it) *)
-Definition guard_F06e (k : kind) (s : spec) (ms : list str) (o : op) (st : N) : bool :=
-  match transport k st with
-  | Some _ => true
-  | None => match call k s o st with Raised c _ _ => negb (mem_str (cls_name c) ms) | _ => true end
-  end.
-(* spec-level side condition: no imported model class is named like an exception class the module can raise *)
-Definition raisable_names (s : spec) : list str :=
-  handler_fallback_raises :: handler_declared_other_raises :: map (fun x => snd x) handler_ranges
-  ++ flat_map (fun o => flat_map (fun c => match snd c with CAlias m => [alias_name m] | _ => [] end) (cases o)) s.
-Definition no_shadowing (s : spec) (ms : list str) : bool := negb (existsb (fun n => mem_str n ms) (raisable_names s)).
 
 (* ------------------------------------------------------------------ the property (from its text) *)
 Definition s_HTTPError : str := [72;84;84;80;69;114;114;111;114].
